@@ -4,6 +4,18 @@ import json, pathlib
 V = pathlib.Path(__file__).resolve().parent.parent
 ALL = [f"C{i:02d}" for i in range(1, 20)]
 CLAIMED = {
+ "C11": dict(
+   text="Coq theorems over Pull.v (get_nodes_in_data_tree, the disconnect/restore wrapper, toposort_flatten and the linear chain, "
+        "run_data_tree step by step incl. relabelling, parent run with overridden starting nodes and the finally clause; depth-first "
+        "delivery outside and FIFO loop inside a running parent): the executed list is a topological enumeration of exactly the "
+        "target's closure with the target last, each once; labels, starting nodes, data edges and the connection sets of every "
+        "run/accumulate_and_run/ran channel are restored for every outcome (ok, refused for cycle or executor, upstream failure), "
+        "level by level up to the root; refusals leave the scope literally unchanged. Pulls of every target in generated DAGs of "
+        "parentless nodes, workflow children and nested macro children are compared with the model and with an oracle.",
+   design="13/C11", technique="Coq proofs (induction over closure fuel / stack of scopes, restoration invariants) + differential correspondence + oracle",
+   note="Data values, caches and executors actually running are outside the model (oracle checks returned values). Order inside "
+        "restored connection lists is not preserved (observation, theorem C11_order_not_restored); S12 (enclosing macro emits ran "
+        "when pulled through) is a known finding until its fix is applied."),
  "C07": dict(
    text="Coq theorems over Serial.v (the __getstate__/__setstate__ chain: channels drop connections and receivers, lexical objects "
         "drop the parent and record the detached path, runnables drop future and live executor, composites store label tuples "
